@@ -190,7 +190,7 @@ def r1_construction(repo, rep):
   cls = repo.cls('tbrmmdesign.TBRMMDesign')
   f = cls.methods.get('__post_init__')
   if f is None:
-    rep.violation('R1/construction', cls.qualname, 'no __post_init__', 'TBRMMDesign no longer validates its groups (empty or overlapping groups are accepted)', cls.loc())
+    rep.absent_in_class(cls, 'R1/construction', cls.qualname, 'no __post_init__', 'TBRMMDesign no longer validates its groups (empty or overlapping groups are accepted)', cls.loc())
     return
   rep.fn(f)
   s = f.params[0]
